@@ -13,4 +13,30 @@ namespace Romea.Hidden.C16
 
 theorem hidden_state_as_recorded : Romea.Generated.C16.hiddenState = [] := by rfl
 
+/-- The names (not only the types) of what every translated function reads, carries through its loops and returns are those
+    the bridge theorems were written against: a function that now reads or writes ANOTHER member of the same type keeps its Lean
+    type, and a positional application in a bridge would keep checking. -/
+theorem signatures_as_recorded : Romea.Generated.C16.signatures = [
+    "OnlineAverage.OnlineAverage (averagePrecision windowSize) result: average_', data_', index_', multiplier_', sumOfData_', windowSize_'",
+    "OnlineAverage.update (data_ index_ multiplier_ sumOfData_ value windowSize_) result: average_', data_', index_', sumOfData_'",
+    "OnlineAverage.reset () result: average_', data_', index_', sumOfData_'",
+    "OnlineAverage.isAvailable (data_ windowSize_) result: ret",
+    "OnlineAverage.getAverage (average_) result: ret",
+    "OnlineVariance.OnlineVariance (averagePrecision windowSize) result: average_', data_', index_', multiplier_', squaredData_', squaredMultiplier_', sumOfData_', sumOfSquaredData_', variance_', windowSizeMinusOne_', windowSize_'",
+    "OnlineVariance.update (data_ index_ multiplier_ squaredData_ squaredMultiplier_ sumOfData_ sumOfSquaredData_ value windowSizeMinusOne_ windowSize_) result: average_', data_', index_', squaredData_', sumOfData_', sumOfSquaredData_', variance_'",
+    "OnlineVariance.reset () result: average_', data_', index_', squaredData_', sumOfData_', sumOfSquaredData_', variance_'",
+    "OnlineVariance.getVariance (variance_) result: ret",
+    "RingOfEigenVector.RingOfEigenVector (ringSize) result: ringIndex_', ringSize_', ring_'",
+    "RingOfEigenVector.append (position ringIndex_ ringSize_ ring_) result: ringIndex_', ring_'",
+    "RingOfEigenVector.clear () result: ringIndex_', ring_'",
+    "RingOfEigenVector.size (ring_) result: ret",
+    "RingOfEigenVector.operator_index (n ringIndex_ ring_) result: ret",
+    "OnlineAverage.OnlineAverage_1 (averagePrecision) result: average_', data_', index_', multiplier_', sumOfData_', windowSize_'",
+    "OnlineAverage.OnlineAverage_copy (onlineAverage_average_ onlineAverage_data_ onlineAverage_index_ onlineAverage_multiplier_ onlineAverage_sumOfData_ onlineAverage_windowSize_) result: average_', data_', index_', multiplier_', sumOfData_', windowSize_'",
+    "OnlineAverage.setWindowSize (data_ windowSize) result: windowSize_'",
+    "OnlineAverage.getWindowSize (windowSize_) result: ret",
+    "OnlineVariance.OnlineVariance_1 (averagePrecision) result: average_', data_', index_', multiplier_', squaredData_', squaredMultiplier_', sumOfData_', sumOfSquaredData_', variance_', windowSizeMinusOne_', windowSize_'",
+    "OnlineVariance.OnlineVariance_copy (onlineVariance_average_ onlineVariance_data_ onlineVariance_index_ onlineVariance_multiplier_ onlineVariance_squaredData_ onlineVariance_squaredMultiplier_ onlineVariance_sumOfData_ onlineVariance_sumOfSquaredData_ onlineVariance_variance_ onlineVariance_windowSizeMinusOne_ onlineVariance_windowSize_) result: average_', data_', index_', multiplier_', squaredData_', squaredMultiplier_', sumOfData_', sumOfSquaredData_', variance_', windowSizeMinusOne_', windowSize_'",
+    "OnlineVariance.setWindowSize (data_ squaredData_ windowSize) result: windowSizeMinusOne_', windowSize_'"] := by rfl
+
 end Romea.Hidden.C16
